@@ -259,8 +259,21 @@ func replayNative(id string, spec *ReplaySpec, v *Violation, repo string) {
 		c.Flags = append(append([]string{}, spec.Flags...), "-race", "-count=40")
 		rs = &c
 	}
+	if v.Kind == "deadlock" {
+		// a deadlock natively is a test that never ends: give it a short deadline
+		c := *rs
+		c.Flags = append(append([]string{}, rs.Flags...), "-timeout=45s")
+		rs = &c
+	}
 	out, _ := runReplay(repo, rs, ovFile)
 	os.WriteFile(filepath.Join(d, base+".log"), []byte(out), 0o644)
+	if v.Kind == "deadlock" && !strings.Contains(out, "VERIF-REPRODUCED") && !strings.Contains(out, "VERIF-NOT-REPRODUCED") {
+		if strings.Contains(out, "all goroutines are asleep") || strings.Contains(out, "test timed out") || strings.HasSuffix(out, "TIMEOUT") {
+			v.Status = "reproduced"
+			v.Note += " (the native run never ends: deadline / runtime deadlock report)"
+			return
+		}
+	}
 	if isRace {
 		// the happens-before analysis is confirmed by the Go race detector on the real build
 		file := v.Site
